@@ -130,3 +130,34 @@ func ZZ_C03_regionOversizedRequest(size2 int64) bool { return size2 > 65535 }
 func ZZ_C03_regionReleaseOverflow(op, size1, size2 int64) bool {
 	return op == 1 && size1+size2 > 65000
 }
+
+// C03, longer histories: up to four updates of one session with report sizes
+// from {small, 20000, 30000, 45000} octets in every order (records fill up,
+// split, and the partial record fills up again), each followed by the file
+// check. Thorough tier: 4 steps; quick tier: 3 steps over {small, 30000, 45000}.
+//
+//gosx:property=C03 tier=quick unwind=40 timeout=30000 shards=4 p.steps=3 p.steps.thorough=4 p.sizes=3 p.sizes.thorough=4 maxseconds.thorough=3000
+func ZZ_C03_History() {
+	p := zzSetup()
+	zzAccount(zzSupi, 1, 1000000, 10)
+	ref, _ := zzCreate(p, "A", zzSupi)
+	sizes := []int{45000, 30000, 5, 20000}[:vx.Param("sizes", 3)]
+	total := 0
+	for i := 0; i < vx.Param("steps", 3); i++ {
+		var k int
+		if i == 0 && vx.Param("nshards", 1) > 1 {
+			k = vx.Param("shard", 0) % len(sizes) // first size per shard
+		} else {
+			k = vx.Choice("size", len(sizes))
+		}
+		u, _ := zzUsageInd("u", 1, 1, 1)
+		zzSmallUsage(&u)
+		u.UPFID = zzLongString(sizes[k])
+		total += sizes[k]
+		c := &gin.Context{}
+		p.HandleChargingdataUpdate(c, models.ChfConvergedChargingChargingDataRequest{SubscriberIdentifier: zzSupi,
+			MultipleUnitUsage: []models.ChfConvergedChargingMultipleUnitUsage{u}}, ref)
+		vx.Assert("update answered 200", vx.HTTPStatus(c) == 200)
+		zzCheckCdrFile("after update in a longer history")
+	}
+}
